@@ -1223,6 +1223,46 @@ pub mod verif_hooks {
         false
     }
 
+    /// The oldest substream-open command issued towards any connection succeeds: `substream` is handed to the protocol
+    /// (which starts the request's send/receive future). `Some(handler result)`, `None` if no command was waiting.
+    pub fn substream_opened(kernel: &mut Kernel, peer: PeerId, substream: Substream) -> Option<bool> {
+        for (_, rx) in kernel.commands.iter_mut() {
+            if let Ok(ProtocolCommand::OpenSubstream { substream_id, .. }) = rx.try_recv() {
+                return Some(run(kernel.protocol.on_outbound_substream(peer, substream_id, substream, None)).map_or(false, |r| r.is_ok()));
+            }
+        }
+        None
+    }
+
+    /// What the event loop does with the request futures: every future that is ready is taken out and its result handed to
+    /// `on_substream_event`. Returns the number of results handled.
+    pub fn poll_requests(kernel: &mut Kernel) -> usize {
+        use futures::StreamExt;
+        let waker = noop_waker();
+        let mut cx = Context::from_waker(&waker);
+        let mut handled = 0;
+        while !kernel.protocol.pending_inbound.is_empty() {
+            match kernel.protocol.pending_inbound.poll_next_unpin(&mut cx) {
+                Poll::Ready(Some((peer, request_id, fallback, event))) => {
+                    let _ = run(kernel.protocol.on_substream_event(peer, request_id, fallback, event));
+                    handled += 1;
+                }
+                _ => break,
+            }
+        }
+        handled
+    }
+
+    /// The user cancels a request.
+    pub fn cancel_request(kernel: &mut Kernel, request_id: RequestId) {
+        let _ = kernel.protocol.on_cancel_request(request_id);
+    }
+
+    /// Number of request futures (requests whose substream is open) the protocol is driving.
+    pub fn requests_in_flight(kernel: &Kernel) -> usize {
+        kernel.protocol.pending_inbound.len()
+    }
+
     /// An inbound substream of `peer` is handed to the protocol (the remote opened a request substream).
     pub fn inbound_substream(kernel: &mut Kernel, peer: PeerId, substream: Substream) -> bool {
         run(kernel.protocol.on_inbound_substream(peer, None, substream)).map_or(false, |r| r.is_ok())
